@@ -572,6 +572,13 @@ def slice_index_range(ctx):
     return Ref(cell, path + (('slice', lo, simp(hi - lo)),))
 
 
+@contract(r'^<(?:Vec<.*>|\[.*\]|(?:std::string::)?String|str) as (?:std::ops::)?Index(?:Mut)?<(?:std::ops::)?RangeFull>>::index(?:_mut)?$')
+def index_range_full(ctx):
+    """`v[..]`: the whole sequence as a slice -- the same storage"""
+    a = ctx.args[0]
+    return a if isinstance(a, Ref) else NotImplemented
+
+
 @contract(r'^<\[u8\] as (?:std::ops::)?Index(?:Mut)?<usize>>::index(?:_mut)?$|^<Vec<u8> as (?:std::ops::)?Index(?:Mut)?<usize>>::index(?:_mut)?$')
 def slice_index_usize(ctx):
     ex, st = ctx.ex, ctx.st
@@ -817,6 +824,28 @@ def option_take(ctx):
     r = ctx.args[0]
     v, loc = to_enum(ex, st, r)
     ex.store(st, loc[0], loc[1], mk_option(ex, None))
+    return v
+
+
+@contract(r'^(?:std::option::)?Option::<.*>::insert$')
+def option_insert(ctx):
+    """Option::insert(v): the slot becomes Some(v) (whatever it held is dropped); returns &mut to the stored value"""
+    ex, st = ctx.ex, ctx.st
+    v, loc = to_enum(ex, st, ctx.args[0])
+    if loc is None:
+        return NotImplemented
+    ex.store(st, loc[0], loc[1], mk_option(ex, ctx.args[1]))
+    return Ref(loc[0], loc[1] + (('v', 1), ('f', 0, deref_ty(ctx.dest_ty or '') or 'unknown')))
+
+
+@contract(r'^(?:std::option::)?Option::<.*>::replace$')
+def option_replace(ctx):
+    """Option::replace(v): the slot becomes Some(v); returns what it held"""
+    ex, st = ctx.ex, ctx.st
+    v, loc = to_enum(ex, st, ctx.args[0])
+    if loc is None:
+        return NotImplemented
+    ex.store(st, loc[0], loc[1], mk_option(ex, ctx.args[1]))
     return v
 
 
